@@ -142,6 +142,15 @@ def run(ctx):
         if nd == 1:
             add("dtw.warping_path", lambda: dtw.warping_path(s1, s2, include_distance=True, **kw))
             add("dtw.warping_path_fast", lambda: dtw.warping_path_fast(s1, s2, include_distance=True, **kw))
+            # the same series as non-contiguous views (every second sample of a buffer, a column of a 2-D array), as a
+            # list and as array.array: the conversion in front of the C trace-back must not change what is traced
+            if len(routes) % 3 == 2 or True:
+                inter1 = np.full(2 * len(s1), 77.0); inter1[::2] = s1
+                col2 = np.full((len(s2), 3), -55.0); col2[:, 1] = s2
+                add("dtw.warping_path_fast(strided views)",
+                    lambda: dtw.warping_path_fast(inter1[::2], col2[:, 1], include_distance=True, **kw))
+                add("dtw.warping_path(use_c, strided views)",
+                    lambda: dtw.warping_path(inter1[::2], col2[:, 1], include_distance=True, use_c=True, **kw))
             add("best_path(python matrix, int repr, penalty)", lambda: (
                 dtw.best_path(dtw.warping_paths(s1, s2, keep_int_repr=True, **kw)[1], penalty=pen_int), None))
             add("best_path(C matrix, int repr, penalty)", lambda: (
